@@ -145,6 +145,7 @@ def oracle(ctx, case, out):
     ctx = _C()
     tagmap = {}
     prev_top = []
+    recorded = set()      # digests handed to AddChildren and neither removed by digest nor inserted at the top level since
     for k, st in enumerate(out["states"]):
         op = case["ops"][k]
         hist = dict(case=dict(case, ops=case["ops"][:k + 1]), state=st)
@@ -209,6 +210,15 @@ def oracle(ctx, case, out):
                     sig = "C18:lookup-empty-top" if (not top and q in present) else "C18:lookup-digest"
                     ctx.violation("lookup by digest %s = %s but present = %s" % (q[:12], got, q in present),
                                   hist, sig)
+        # I5' a digest recorded through AddChildren is found until it is removed, whatever else is listed or removed meanwhile
+        if op["op"] == "addchildren":
+            recorded |= {c["dig"] for c in (op.get("children") or []) if c["dig"]}
+        elif op["op"] in ("rm", "add") and op["d"]["dig"]:
+            # removed by digest - or listed at the top level from now on (AddDesc moves a child entry up), where removals by tag apply
+            recorded.discard(op["d"]["dig"])
+        for qi, q in enumerate(case["queries"]):
+            if q in recorded and st["get"][qi] is None:
+                ctx.violation("lookup by digest %s fails although it was recorded as a child and never removed" % q[:12], hist, "C18:recorded-child-lost")
         # I6 / I7
         if op["op"] == "rm":
             t, dg = tag_of(op["d"]), op["d"]["dig"]
